@@ -10,16 +10,19 @@ pub mod c07;
 pub mod c04;
 pub mod c08;
 pub mod c09;
+#[cfg(not(feature = "pointer"))]
 pub mod c10;
 pub mod c11;
 pub mod c12;
 pub mod c13;
 pub mod c14;
+#[cfg(not(feature = "pointer"))]
 pub mod c15;
 pub mod c16;
 pub mod c17;
 pub mod c18;
 pub mod c19;
+pub mod c20;
 
 pub type MonFn = fn(&mut Ctx);
 
@@ -49,11 +52,17 @@ pub fn registry() -> Vec<(&'static str, &'static str, MonFn)> {
         ("c07_sched_dfs", "C07", c07::sched_dfs as MonFn),
         ("c07_stress", "C07", c07::stress as MonFn),
         ("c07_tiny", "C07", c07::tiny as MonFn),
+        #[cfg(not(feature = "pointer"))]
         ("c10_scalar", "C10", c10::scalar as MonFn),
+        #[cfg(not(feature = "pointer"))]
         ("c10_dd", "C10", c10::dd as MonFn),
+        #[cfg(not(feature = "pointer"))]
         ("c15_roundtrip", "C15", c15::c15_roundtrip as MonFn),
+        #[cfg(not(feature = "pointer"))]
         ("c15_malformed", "C15", c15::c15_malformed as MonFn),
+        #[cfg(not(feature = "pointer"))]
         ("c15_huge", "C15", c15::c15_huge as MonFn),
+        #[cfg(not(feature = "pointer"))]
         ("c15_case", "C15", c15::c15_case as MonFn),
         ("c19_lifecycle", "C19", c19::lifecycle as MonFn),
         ("c12_natural", "C12", c12::natural as MonFn),
@@ -69,6 +78,7 @@ pub fn registry() -> Vec<(&'static str, &'static str, MonFn)> {
         ("c18_simplify_exh", "C18", c18::simplify_exh as MonFn),
         ("c18_simplify_rand", "C18", c18::simplify_rand as MonFn),
         ("c18_parsers", "C18", c18::parsers as MonFn),
+        ("c20_digest", "C20", c20::digest as MonFn),
         ("c02_pairs", "C02", c02::pairs as MonFn),
     ]
 }
